@@ -738,4 +738,146 @@ example : Proofs.Whole.LinksOkA [exA1, exA2] ∧ Proofs.Whole.EndOkA ["\n".toLis
   ⟨⟨by decide, trivial⟩, by decide, by decide, by decide, rfl, rfl⟩
 
 
+/-! ### composition over the result blocks of a file (TOUGH2 family): set_index = seek + read_header + the block loop -/
+
+open Proofs.Whole in
+/-- what a reader state `s'` holds after the tables `L` of a TOUGH2-family block have been gone through from state `s`
+    (the table part of the conclusion of `tables_read_block_TOUGH2`) -/
+def HoldsBlockT (s s' : Rd) (L : List TEntry) : Prop :=
+  (∀ x ∈ L, ∀ t header segs, x.kind = .read t header segs → t.data.size = t.rows.size →
+    ∃ t', s'.tables.lookup x.tn = some t' ∧ t' = { t with data := t'.data } ∧
+      ∀ (j : Nat) d i vals, (segs.map (·.1))[j]? = some d →
+        rowOfLineT t.rows t.keyPos t.cols.length t.numpos d = some (i, vals) →
+        (∀ (j' : Nat) d', j < j' → (segs.map (·.1))[j']? = some d' →
+          ∀ v', rowOfLineT t.rows t.keyPos t.cols.length t.numpos d' ≠ some (i, v')) →
+        t'.data[i]? = some vals.toArray) ∧
+  (∀ m, (∀ x ∈ L, x.tn = m → ∃ R atl, x.kind = .skip R atl) → s'.tables.lookup m = s.tables.lookup m)
+
+open Proofs.Whole in
+/-- **Composition over the result blocks of a file (TOUGH2, TOUGH2_MP, TOUGH3, TOUGHREACT): `set_index(i)` shows block
+    `i`'s own numbers.**  `read_header_TOUGH2` is characterised on lines: the line at the recorded position gives time
+    and step (its first two words), then lines `X` up to the `@@@@@` line `atl`, blank lines `Bl`, and the first
+    non-blank line is the header of the first table (at least four words, so the reader seeks back to it;
+    `HeaderT2Ok`, decidable).  When the position recorded for result `i` in `fullpos` is the start of such a header
+    followed by a well-formed block whose first table is the element table (explicit decidable hypotheses `hprest`,
+    `hhead`, `hok`, `hlinks`, `hend`, evaluated with the index `set_index` sets), `set_index(i)` returns, the index is
+    `i` normalised, time and step are those printed, and every table holds the numbers of that block's own region
+    (`HoldsBlockT`), whatever the reader held before and whatever tables are skipped. -/
+theorem set_index_reads_block_TOUGH2 (s : Rd) (i : Int) (jn : Nat) (p : Pos)
+    (l0 : Str) (X : List Str) (atl : Str) (Bl : List Str) (tm : FVal) (st : Step)
+    (e : TEntry) (more : List TEntry) (Xe : List Str) (tailE : Option (Str × List Str))
+    (hj : (if i < 0 then i + (s.fullpos.size : Int) else i) = (jn : Int)) (hjn : jn < s.fullpos.size)
+    (hp : s.fullpos[jn]! = p)
+    (hel : e.tn = "element")
+    (hrt : bound s.fam "read_tables" = "read_tables_TOUGH2") (hrh : bound s.fam "read_header" = "read_header_TOUGH2")
+    (hrd : bound s.fam "read_table" = "read_table_TOUGH2") (hsk : bound s.fam "skip_table" = "skip_table_TOUGH2")
+    (hnt : bound s.fam "next_table" = "next_table_TOUGH2") (htt : bound s.fam "table_type" = "table_type_TOUGH2")
+    (hplus : (s.fam == .toughplus) = false)
+    (hv : headerT2Vals l0 = some (tm, st))
+    (hne : e.kind.lines ≠ [])
+    (hhead : HeaderT2Ok l0 X atl Bl (e.kind.lines.headD [])) (h4 : 4 ≤ (splitWs (e.kind.lines.headD [])).length)
+    (hprest : p.rest = l0 :: (X ++ atl :: (Bl ++ blockLines (e :: more) (endLines Xe tailE))))
+    (hnodup : ((e :: more).map (·.tn)).Nodup)
+    (hok : ∀ x ∈ e :: more, EntryOk s.skipTables s.tables x)
+    (hlinks : LinksOk s.fulltimes.size s.fullpos (if i < 0 then i + (s.fulltimes.size : Int) else i)
+      (p.no + 1 + X.length + 1 + Bl.length) (e :: more))
+    (hend : EndOk s.fulltimes.size s.fullpos (if i < 0 then i + (s.fulltimes.size : Int) else i)
+      (endNo (p.no + 1 + X.length + 1 + Bl.length) (e :: more)) Xe tailE) :
+    ∃ s', (setIndex i).run s = .ok ((), s') ∧
+      s'.index = (if i < 0 then i + (s.fulltimes.size : Int) else i) ∧ s'.time = tm ∧ s'.step = st ∧
+      s'.pos = endPos (endNo (p.no + 1 + X.length + 1 + Bl.length) (e :: more)) Xe tailE ∧
+      HoldsBlockT s s' (e :: more) ∧
+      s' = { s with pos := s'.pos, index := s'.index, tables := s'.tables, step := s'.step, time := s'.time } := by
+  have hrun := setIndex_block_T2 s i jn p l0 X atl Bl tm st e more Xe tailE hj hjn hp hel hrt hrh hrd hsk hnt htt hplus hv hne
+    hhead h4 hprest hnodup hok hlinks hend
+  refine ⟨_, hrun, rfl, rfl, rfl, rfl, ⟨?_, ?_⟩, rfl⟩
+  · intro x hx t header segs hk hdata
+    have hxok := hok x hx
+    unfold EntryOk at hxok
+    rw [hk] at hxok
+    refine ⟨_, foldl_lookup_read (e :: more) s.tables x t header segs hx hk hnodup (by rw [hxok.2.1]; rfl), rfl, ?_⟩
+    intro j d i' vals hj' hf hlater
+    have hi : i' < t.data.size := by
+      obtain ⟨key, _, hli, _, _⟩ := (rowOfLineT_spec _ _ _ _ _ _ _).mp hf
+      rw [hdata]; exact (Proofs.Listing.lastIdx_spec hli).1
+    exact applyRows_line _ _ t.data j d i' vals hj' hf hi hlater
+  · intro m hm
+    exact foldl_lookup_not_read (e :: more) s.tables m hm
+
+-- the hypotheses are satisfiable: the block of the example above behind a result header, recorded in `fullpos`
+private def exHdrT : List Str := [" 0.10000E+01      1      2\n".toList, " @@@@@@@@@@\n".toList, "\n".toList]
+private def exRdS : Rd :=
+  let ls := exHdrT ++ Proofs.Whole.blockLines [exE1, exE2] (Proofs.Whole.endLines ["\n".toList] none)
+  { all := ls, isOutputData := false, pos := ⟨0, ls⟩, fam := .tough2, tables := [("element", exT2)], skipTables := ["connection"],
+    fullpos := #[⟨17, ls⟩], fulltimes := #[zero] }
+example : (if (0 : Int) < 0 then (0 : Int) + (exRdS.fullpos.size : Int) else 0) = ((0 : Nat) : Int) ∧ 0 < exRdS.fullpos.size ∧
+    exE1.tn = "element" ∧ bound exRdS.fam "read_tables" = "read_tables_TOUGH2" ∧ bound exRdS.fam "read_header" = "read_header_TOUGH2" ∧
+    (exRdS.fam == .toughplus) = false ∧
+    Proofs.Whole.headerT2Vals " 0.10000E+01      1      2\n".toList = some (.fin false 10000 (-4), some 1) ∧
+    exE1.kind.lines ≠ [] ∧
+    Proofs.Whole.HeaderT2Ok " 0.10000E+01      1      2\n".toList [] " @@@@@@@@@@\n".toList ["\n".toList] (exE1.kind.lines.headD []) ∧
+    4 ≤ (splitWs (exE1.kind.lines.headD [])).length := by decide
+example : (exRdS.fullpos[0]!).rest = " 0.10000E+01      1      2\n".toList :: ([] ++ " @@@@@@@@@@\n".toList :: (["\n".toList] ++
+    Proofs.Whole.blockLines [exE1, exE2] (Proofs.Whole.endLines ["\n".toList] none))) := rfl
+example : Proofs.Whole.LinksOk exRdS.fulltimes.size exRdS.fullpos 0 (17 + 1 + 0 + 1 + 1) [exE1, exE2] ∧
+    Proofs.Whole.EndOk exRdS.fulltimes.size exRdS.fullpos 0 (Proofs.Whole.endNo (17 + 1 + 0 + 1 + 1) [exE1, exE2]) ["\n".toList] none := by
+  refine ⟨⟨⟨by decide, by decide, by decide, by decide, by decide, by decide, by decide, by decide, by decide⟩, trivial⟩, by decide, trivial⟩
+
+/-! ### from set-up to reading (AUTOUGH2): the layout `setup_table_AUTOUGH2` records makes the same region readable -/
+
+open Proofs.Whole in
+/-- **The set-up of an AUTOUGH2 table records a layout for which the SAME printed region is a well-formed region of
+    `read_table_AUTOUGH2`; one row per printed data line, keyed by the printed names.**  `setup_table_AUTOUGH2` is run
+    with the file behind the three result-header lines, on: three lines `a1 a2 a3`, the column header line `hdr`, one
+    line `u`, the data lines `d0 :: D'`, the terminator `term` (`SetupRegionA`, decidable: the header line gives
+    `nkeys` key columns and the column names `cols`; the first data line gives the start of the values, one value per
+    column and the key positions; no data line carries the keyword in columns 1..5, the terminator does; `ks` are the
+    keys `key_from_line` cuts out of the data lines).  Print-level conditions that do not mention the table: the five
+    lines in front of the data are a non-blank block `A`, a blank line, a non-blank block `B`, blank lines (`hlay`, as
+    AUTOUGH2 prints them: keyword line, table title, blank, column header, blank), and every data line splits into one
+    value per column (`hvals`).  Then the set-up returns, the table it stores has exactly the keys `ks` as rows (one
+    per printed data line, in order) and the columns `cols`, the file is left where reading the table will leave it
+    (`tail.drop 1`), and the region is `TableRegionA` for the stored table — so `table_read_AUTOUGH2` applies to it
+    without assuming anything about the layout record. -/
+theorem setup_table_records_region_AUTOUGH2 (tn : String) (s : Rd) (a1 a2 a3 hdr u d0 : Str) (D' : List Str) (term : Str)
+    (tail : List Str) (nkeys : Nat) (cols : List Str) (start : Option Int) (keypos : List Int) (ks : List Key)
+    (A : List Str) (b : Str) (B : List Str) (b2 : Str) (Bl : List Str)
+    (hrest : s.pos.rest = a1 :: a2 :: a3 :: hdr :: u :: (((d0 :: D') ++ [term]) ++ tail))
+    (hreg : SetupRegionA tn hdr d0 D' term nkeys cols start keypos ks)
+    (hlay : a1 :: a2 :: a3 :: hdr :: [u] = A ++ b :: (B ++ b2 :: Bl))
+    (hA : ∀ l ∈ A, isBlank l = false) (hb : isBlank b = true) (hB : ∀ l ∈ B, isBlank l = false) (hb2 : isBlank b2 = true)
+    (hBl : ∀ l ∈ Bl, isBlank l = true) (hfirst : isBlank d0 = false)
+    (hvals : ∀ d ∈ d0 :: D', (rowOfLineA cols.length start d).isSome = true) :
+    ∃ s' t, (setupTableAUTOUGH2 tn).run s = .ok ((), s') ∧ s'.tables.lookup tn = some t ∧
+      t.rows = ks.toArray ∧ t.rows.size = (d0 :: D').length ∧ t.cols = cols ∧
+      (d0 :: D').map (fun d => keyFromLine d t.keyPos) = ks.map .ok ∧
+      s.pos.rest = autRegion A b B b2 Bl (d0 :: D') term tail ∧
+      TableRegionA tn t A b B b2 Bl (d0 :: D') term ∧
+      s'.pos.rest = tail.drop 1 ∧
+      (∀ m, m ≠ tn → s'.tables.lookup m = s.tables.lookup m) ∧
+      s' = { s with pos := s'.pos, tables := s'.tables, tablenames := s.tablenames ++ [tn] } := by
+  obtain ⟨s', t, hrun, _, hrest', hlook, ht, hcols, hrows, hsize, _, hkp, _, _, hother, hnames, hs'⟩ :=
+    setup_table_AUTOUGH2_whole tn s a1 a2 a3 hdr u d0 D' term tail nkeys cols start keypos ks hrest hreg
+  have hreads := setupTableA_reads tn hdr d0 D' term nkeys cols start keypos ks hreg hvals
+  rw [← ht] at hreads
+  refine ⟨s', t, hrun, hlook, hrows, hsize, hcols, ?_, ?_, ?_, hrest', hother, ?_⟩
+  · rw [hkp]; exact hreg.2.2.2.2.2.2.2
+  · rw [hrest]
+    have : a1 :: a2 :: a3 :: hdr :: u :: (((d0 :: D') ++ [term]) ++ tail)
+        = (a1 :: a2 :: a3 :: hdr :: [u]) ++ (((d0 :: D') ++ [term]) ++ tail) := rfl
+    rw [this, hlay]
+    simp [autRegion]
+  · exact ⟨hA, hb, hB, hb2, hBl, hfirst, hreg.2.2.2.2.2.1, hreg.2.2.2.2.2.2.1, hreads.1, hreads.2.1, hreads.2.2⟩
+  · rw [hnames] at hs'; exact hs'
+
+-- the hypotheses are satisfiable: the element table of the examples above, laid out as AUTOUGH2 prints it
+example : Proofs.Whole.SetupRegionA "element" " ELEMENT INDEX P T X\n".toList exDA[0] [exDA[1]] " EEEEEEEEEEEEEEE\n".toList
+    1 [['P'], ['T'], ['X']] (some 24) [4] [["AA  1".toList], ["AA  2".toList]] := by decide
+example : (" EEEEEEEEEEEEEEE\n".toList :: "        ELEMENT TABLE\n".toList :: "\n".toList :: " ELEMENT INDEX P T X\n".toList :: ["\n".toList]
+      = [" EEEEEEEEEEEEEEE\n".toList, "        ELEMENT TABLE\n".toList] ++ "\n".toList :: ([" ELEMENT INDEX P T X\n".toList] ++ "\n".toList :: [])) ∧
+    (∀ l ∈ [" EEEEEEEEEEEEEEE\n".toList, "        ELEMENT TABLE\n".toList], isBlank l = false) ∧ isBlank "\n".toList = true ∧
+    (∀ l ∈ [" ELEMENT INDEX P T X\n".toList], isBlank l = false) ∧ isBlank exDA[0] = false ∧
+    (∀ d ∈ exDA[0] :: [exDA[1]], (Proofs.Whole.rowOfLineA [['P'], ['T'], ['X']].length (some 24) d).isSome = true) := by decide
+
+
 end Props.C05
